@@ -395,6 +395,55 @@ def call_sites(index, target: FuncInfo, modules=None) -> List[Tuple[FuncInfo, as
     return out
 
 
+def _accepts(callee: FuncInfo, call: ast.Call) -> bool:
+    a = callee.node.args
+    pos = [x.arg for x in a.posonlyargs + a.args]
+    if callee.cls is not None and pos and pos[0] in ("self", "cls"):
+        pos = pos[1:]
+    if any(isinstance(x, ast.Starred) for x in call.args) or any(k.arg is None for k in call.keywords):
+        return True
+    if len(call.args) > len(pos) and a.vararg is None:
+        return False
+    names = set(pos) | {x.arg for x in a.kwonlyargs}
+    if a.kwarg is None and any(k.arg not in names for k in call.keywords):
+        return False
+    required = pos[: len(pos) - len(a.defaults)]
+    given = set(pos[: len(call.args)]) | {k.arg for k in call.keywords}
+    return all(r in given for r in required)
+
+
+def method_call_sites(index, target: FuncInfo) -> List[Tuple[FuncInfo, ast.Call]]:
+    """May-call sites of a METHOD by name on an arbitrary receiver (`x.name(...)`): every call whose
+    attribute name is the method's and whose arguments fit the method's signature.  Receivers `self`/`cls`
+    are resolved exactly; other receivers are kept when the signature fits (class-hierarchy
+    approximation: may include calls of an unrelated method of the same name and arity)."""
+    out, seen = [], set()
+    needle = "." + target.name + "("
+    for m in index.all_modules():
+        if needle not in m.source:
+            continue
+        lines = _needle_lines(m.source, needle)
+        for f in index.all_functions(m):
+            lo, hi = f.node.lineno, getattr(f.node, "end_lineno", f.node.lineno)
+            if not any(lo <= ln <= hi for ln in lines):
+                continue
+            for c in calls_in(f.node, into_nested=True):
+                if id(c) in seen or not (isinstance(c.func, ast.Attribute) and c.func.attr == target.name):
+                    continue
+                recv = dotted(c.func.value)
+                if recv in ("self", "cls") and f.cls is not None:
+                    if index.resolve_method(f.cls, target.name) is not target:
+                        continue
+                elif recv == "super()":
+                    continue
+                elif not _accepts(target, c):
+                    continue
+                seen.add(id(c))
+                out.append((f, c))
+    out.sort(key=lambda fc: (fc[0].module.relpath, fc[1].lineno, fc[1].col_offset))
+    return out
+
+
 def arg_for(call: ast.Call, callee: FuncInfo, pname: str) -> Optional[ast.AST]:
     """The argument expression bound to parameter `pname` of `callee` at `call` (None if defaulted)."""
     params = list(callee.params)
